@@ -24,11 +24,11 @@ Notation rstate := (rstate Cx).
 Notation mx := (max_msg_size c).
 
 Definition frame_fits (s : rstate) : Prop :=
-  if is_data (s_fop s) then lenN (s_frags s) + s_toread s + lenN (m_partial (s_m s)) < mx
+  if is_data (s_fop s) then lenN (s_frags s) + s_toread s + lenN (m_partial (s_m s)) <= mx
   else lenN (s_frags s) + s_toread s <= 125.
 
 Definition bound_ok (s : rstate) : Prop :=
-  lenN (m_partial (s_m s)) < mx /\
+  lenN (m_partial (s_m s)) <= mx /\
   match s_phase s with
   | RH => s_frags s = [] /\ lenN (s_tail s) < 2
   | RL => s_frags s = [] /\ lenN (s_tail s) < 8 /\ (is_data (s_fop s) = false -> s_lflag s <= 125)
@@ -67,12 +67,14 @@ Proof.
 Qed.
 
 Lemma after_length_inv s tr r :
-  s_tail s = [] -> lenN (m_partial (s_m s)) < mx -> s_frags s = [] ->
+  s_tail s = [] -> lenN (m_partial (s_m s)) <= mx -> s_frags s = [] ->
   (is_data (s_fop s) = false -> tr <= 125) ->
   match after_length Cx c s tr r with PGo s1 _ => pre s1 | PNeed _ => False | _ => True end.
 Proof.
-  intros Ht Hp Hf Hc. unfold after_length. rewrite size_applies_gen, size_reject_gen.
-  destruct (negb (mx =? 0) && is_data (s_fop s) && (mx <=? tr + lenN (m_partial (s_m s)))) eqn:E; [exact I|].
+  intros Ht Hp Hf Hc. unfold after_length. rewrite size_applies_gen.
+  replace (size_reject (Z.of_N tr) (Z.of_N mx) (Z.of_N (lenN (m_partial (s_m s))))) with (mx <? tr + lenN (m_partial (s_m s)))
+    by (unfold size_reject; lia).
+  destruct (negb (mx =? 0) && is_data (s_fop s) && (mx <? tr + lenN (m_partial (s_m s)))) eqn:E; [exact I|].
   unfold pre, bound_ok, frame_fits. cbn [s_tail s_phase s_m s_frags s_fop s_toread].
   split; [exact Ht|]. split; [exact Hp|]. rewrite Hf, Ht. cbn [lenN length N.of_nat].
   destruct (s_hmask s); repeat split; try lia; destruct (is_data (s_fop s)) eqn:Ed; try lia; apply Hc; reflexivity.
@@ -208,6 +210,59 @@ Theorem retained_bounded cx0 segs s :
 Proof.
   intro H. pose proof (feed_all_inv segs (Live (init_state Cx cx0)) (init_bound cx0)) as B. rewrite H in B.
   apply bound_retained. exact B.
+Qed.
+
+(* ---- no fragment entry outlives its frame (independent of max_msg_size) ------------------------- *)
+Definition nofrag (s : rstate) : Prop :=
+  match s_phase s with RP => True | _ => s_nfrags s = 0 end.
+
+Lemma iter_nofrag s d : nofrag s ->
+  match iter Cx decomp c s d with PNeed s1 => nofrag s1 | PDone _ s1 _ => nofrag s1 | _ => True end.
+Proof.
+  intro N0. unfold iter.
+  assert (H1 : match ph_header Cx c s d with PNeed s1 => nofrag s1 | PGo s1 _ => nofrag s1 | PDone _ _ _ => False | _ => True end).
+  { unfold ph_header, nofrag in *. destruct (s_phase s) eqn:E; try (rewrite E; exact N0).
+    destruct d as [|b0 [|b1 r]]; cbn; try (rewrite E; exact N0). unfold pfail. repeat break_if; try exact I; exact N0. }
+  destruct (ph_header Cx c s d) as [| |s1 d1|]; cbn [bind]; try exact I; try exact H1; try contradiction.
+  assert (H2 : match ph_length Cx c s1 d1 with PNeed s2 => nofrag s2 | PGo s2 _ => nofrag s2 | PDone _ _ _ => False | _ => True end).
+  { unfold ph_length, after_length, nofrag in *. destruct (s_phase s1) eqn:E; try (rewrite E; exact H1).
+    repeat break_if; try exact I; cbn; try (rewrite E; exact H1); try exact H1; try exact I;
+      destruct d1 as [|b0 [|b1 [|b2 [|b3 [|b4 [|b5 [|b6 [|b7 r]]]]]]]]; cbn; try (rewrite E; exact H1);
+      repeat break_if; try exact I; cbn; try exact H1; exact I. }
+  destruct (ph_length Cx c s1 d1) as [| |s2 d2|]; cbn [bind]; try exact I; try exact H2; try contradiction.
+  assert (H3 : match ph_mask Cx s2 d2 with PNeed s3 => nofrag s3 | PGo s3 _ => True | PDone _ _ _ => False | _ => True end).
+  { unfold ph_mask, nofrag in *. destruct (s_phase s2) eqn:E; try exact I.
+    destruct d2 as [|b0 [|b1 [|b2 [|b3 r]]]]; cbn; try (rewrite E; exact H2); exact I. }
+  destruct (ph_mask Cx s2 d2) as [| |s3 d3|]; cbn [bind]; try exact I; try exact H3; try contradiction.
+  unfold ph_payload. destruct (lenN d3 <? s_toread s3); [exact I|].
+  destruct (handle_frame _ _ _ _ _ _ _ _); [|exact I].
+  unfold nofrag, had_fragments. cbn [s_phase s_nfrags]. destruct (s_nfrags s3 =? 0) eqn:E; cbn [negb]; [lia|reflexivity].
+Qed.
+
+Lemma runs_nofrag s d acc res : runs Cx decomp c s d acc res -> nofrag s ->
+  match snd res with Live s1 => nofrag s1 | _ => True end.
+Proof.
+  induction 1 as [s d acc s1 E|s d acc e E|s d acc ev s1 d1 res E _ IH]; intro N0;
+    pose proof (iter_nofrag s d N0) as II; rewrite E in II; cbn in II; [exact II|exact I|exact (IH II)].
+Qed.
+
+Lemma feed_all_nofrag segs : forall rd, (match rd with Live s => nofrag s | _ => True end) ->
+  match snd (feed_all Cx decomp c rd segs) with Live s1 => nofrag s1 | _ => True end.
+Proof.
+  induction segs as [|d rest IH]; intros rd B; cbn [feed_all]; [exact B|].
+  assert (B1 : match snd (feed Cx decomp c rd d) with Live s1 => nofrag s1 | _ => True end).
+  { destruct rd as [s|e|]; [|exact I|exact I].
+    apply (runs_nofrag _ _ _ _ (feed_runs Cx decomp c s d)). unfold nofrag in *. destruct s; exact B. }
+  destruct (feed Cx decomp c rd d) as [e1 rd1]. cbn [snd] in B1. specialize (IH rd1 B1).
+  destruct (feed_all Cx decomp c rd1 rest). exact IH.
+Qed.
+
+(* MAIN: outside a payload in progress _payload_fragments is empty, whatever was fed and however it was cut *)
+Theorem no_stale_fragments cx0 segs s :
+  snd (feed_all Cx decomp c (Live (init_state Cx cx0)) segs) = Live s -> s_phase s <> RP -> s_nfrags s = 0.
+Proof.
+  intros H NP. pose proof (feed_all_nofrag segs (Live (init_state Cx cx0)) eq_refl) as B. rewrite H in B.
+  unfold nofrag in B. destruct (s_phase s); try exact B. congruence.
 Qed.
 
 (* every delivered data message fits the limit (inflated size for compressed ones) *)
